@@ -98,7 +98,7 @@ Proof. intros I Ho. unfold obj. apply nth_forall; auto. apply (inv_heap _ I). Qe
 Lemma inv_to_cache s o st : Inv s -> Inv (to_cache s o st).
 Proof.
   intros I. unfold to_cache.
-  set (f := with_state (obj s o) st).
+  set (f := with_batch (with_state (obj s o) st) 0).
   assert (I1 : Inv (set_obj s o f)).
   { apply inv_set_obj; auto. intros Ho. unfold f, obj_ok. simpl. apply (obj_ok_obj s o I Ho). }
   set (s1 := set_obj s o f) in *.
@@ -122,8 +122,8 @@ Proof.
   unfold to_cache.
   assert (L : forall {A} (l : list A) i v, length (list_set l i v) = length l).
   { induction l as [|x r IH]; intros [|j] v; simpl; auto. }
-  destruct (negb (f_logged (with_state (obj s o) st) =? 0) && (ctime (set_obj s o (with_state (obj s o) st)) =? 0));
-    destruct (negb (match f_prev (with_state (obj s o) st) with [] => true | _ => false end) && (st =? ST_FINALIZED));
+  destruct (negb (f_logged (with_batch (with_state (obj s o) st) 0) =? 0) && (ctime (set_obj s o (with_batch (with_state (obj s o) st) 0)) =? 0));
+    destruct (negb (match f_prev (with_batch (with_state (obj s o) st) 0) with [] => true | _ => false end) && (st =? ST_FINALIZED));
     try (match goal with |- context [cache_obj ?x ?y] => destruct (cache_obj x y) end);
     simpl; rewrite ?L; repeat split; auto.
 Qed.
@@ -133,12 +133,12 @@ Proof. intros; eapply inv_same5; eauto; repeat split. Qed.
 Lemma inv_unlock s n : Inv s -> Inv (unlock n s).
 Proof. intros; eapply inv_same5; eauto; repeat split. Qed.
 
-Lemma inv_load_records : forall recs s from ct,
-  (forall r, In r recs -> l_hash r = ver (l_name r)) -> Inv s -> Inv (load_records s recs from ct).
+Lemma inv_load_records : forall recs s from ct bid,
+  (forall r, In r recs -> l_hash r = ver (l_name r)) -> Inv s -> Inv (load_records s recs from ct bid).
 Proof.
-  induction recs as [|r rest IH]; intros s from ct Hr I; simpl; auto.
+  induction recs as [|r rest IH]; intros s from ct bid Hr I; simpl; auto.
   destruct (ct <? l_time r); auto. apply IH; [intros; apply Hr; right; auto|].
-  destruct ((day_of (l_time r) <? day_of from) || ahas (l_name r) (cache s)); auto.
+  match goal with |- Inv (if ?c then _ else _) => destruct c end; auto.
   destruct I as [I1 I2 I3 I4 I5]. constructor; simpl; auto.
   apply Forall_app; split; auto. constructor; auto. unfold obj_ok; simpl. apply Hr; left; auto.
 Qed.
@@ -147,8 +147,10 @@ Lemma inv_build_cache s now from : Inv s -> Inv (build_cache s now from).
 Proof.
   intros I. unfold build_cache. destruct (from =? 0); auto.
   destruct (negb (ctime s =? 0) && (ctime s <=? from)); auto.
-  eapply inv_same5 with (s := load_records s (rlog s) from (if ctime s =? 0 then now else ctime s));
-    [repeat split|]. apply inv_load_records; auto. apply (inv_log _ I).
+  set (s1 := load_records s (rlog s) from (if ctime s =? 0 then now else ctime s) (nbatch s + 1)).
+  assert (I1 : Inv s1) by (apply inv_load_records; auto; apply (inv_log _ I)).
+  eapply inv_same5 with (s := s1); [|exact I1].
+  destruct (visited_any (rlog s) from (if ctime s =? 0 then now else ctime s)); repeat split.
 Qed.
 
 Lemma inv_prepare s n size : Inv s -> Inv (prepare s n size).
@@ -201,7 +203,7 @@ Proof.
   - set (s4 := set_fulls (aset n d' (fulls s3)) (set_parts (aremove n (parts s3)) s3)).
     assert (I4 : Inv s4) by (eapply inv_same5; [|exact I3]; repeat split).
     simpl.
-    set (f := mkff n (p_renamed p) (p_prev p) (p_size p) (p_hash p) ST_RECEIVED 0 false false).
+    set (f := mkff n (p_renamed p) (p_prev p) (p_size p) (p_hash p) ST_RECEIVED 0 false false 0).
     assert (I5 : Inv (set_heap (heap s4 ++ [f]) s4)).
     { destruct I4 as [A B C D E G]. constructor; simpl; auto. apply Forall_app; split; auto. }
     eapply inv_same5; [|apply inv_to_cache; exact I5]. repeat split.
@@ -442,6 +444,39 @@ Proof.
   - apply inv_process, inv_to_cache; auto.
 Qed.
 
+Lemma inv_clean_cache s now : Inv s -> Inv (clean_cache s now).
+Proof.
+  intros I. unfold clean_cache. destruct (expired_batches (ctimes s) now) as [batches keep].
+  assert (I1 : Inv (set_ctime now (set_ctimes keep s))) by (eapply inv_same5; [|exact I]; repeat split).
+  set (s1 := set_ctime now (set_ctimes keep s)) in *. clearbody s1.
+  generalize (cache s). intros l. revert s1 I1.
+  induction l as [|kv r IH]; intros s1 I1; simpl; auto.
+  apply IH. unfold clean_cache_entry.
+  destruct (f_state (obj s1 (snd kv)) <? ST_FINALIZED); auto.
+  destruct (negb match f_prev (obj s1 (snd kv)) with [] => true | _ => false end && negb (f_next (obj s1 (snd kv)))); auto.
+  match goal with |- Inv (if ?c then _ else _) => destruct c end.
+  - eapply inv_same5; [|exact I1]. repeat split.
+  - destruct (f_logged (obj s1 (snd kv)) <? ctime s1); auto. eapply inv_same5; [|exact I1]. repeat split.
+Qed.
+
+Lemma inv_age_all s d : Inv s -> Inv (age_all s d).
+Proof.
+  intros [A B C D E G]. unfold age_all.
+  set (s1 := set_rlog (map (shift_rec d) (rlog s)) s).
+  set (s2 := set_heap (map (shift_obj d) (heap s1)) s1).
+  assert (I2 : Inv s2).
+  { constructor; simpl; auto.
+    - intros t b Hin. destruct (B t b Hin) as [r [Hr [Ht Hh]]].
+      exists (shift_rec d r). split; [apply in_map; auto|]. split; auto.
+    - intros r Hin. apply in_map_iff in Hin as [r0 [<- Hr0]]. simpl. apply C; auto.
+    - rewrite Forall_forall in *. intros f Hin. apply in_map_iff in Hin as [f0 [<- Hf0]].
+      unfold shift_obj. destruct (f_logged f0 =? 0); [apply D; auto|]. unfold obj_ok. simpl. apply D; auto.
+    - intros t b Hin. destruct (G t b Hin) as [r [Hr [Ht Hh]]].
+      exists (shift_rec d r). split; [apply in_map; auto|]. split; auto. }
+  eapply inv_same5 with (s := s2); [|exact I2].
+  destruct (ctime s2 =? 0); repeat split.
+Qed.
+
 (* operations inside D: every announced part of a name carries THE hash of
    that name; validated bodies (.wait) are not tampered with *)
 Definition op_in_D (op : sop) : Prop :=
@@ -471,6 +506,8 @@ Proof.
     + change (1 =? 0) with false. change (1 =? 1) with true. cbv iota.
       destruct (ahas n (fulls s)); auto. eapply inv_same5; [|exact I]. repeat split.
   - cbn [fst]. apply inv_crash. exact HD.
+  - cbn [fst]. apply inv_clean_cache; auto.
+  - cbn [fst]. apply inv_age_all; auto.
 Qed.
 
 Fixpoint srun (s : stage) (ops : list sop) : stage :=
